@@ -81,11 +81,14 @@ def prop_set(draw, kind_hint=None, values=None):
 
 
 @st.composite
-def program(draw, weights=None, min_steps=8, max_steps=30, prefixes=PREFIXES, seed_bare=True, fancy_names=True, cond_rate=4, prop_values=None, restart_rate=None, focus=False):
+def program(draw, weights=None, min_steps=8, max_steps=30, prefixes=PREFIXES, seed_bare=True, fancy_names=True, cond_rate=4, prop_values=None, restart_rate=None, focus=False, sparse_rate=0):
     w = dict(DEFAULT_WEIGHTS)
     if weights:
         w.update(weights)
     cfg = {"prefix": draw(st.sampled_from(prefixes)), "seed": []}
+    sparse = sparse_rate and draw(st.integers(0, sparse_rate - 1)) == 0
+    if sparse:
+        cfg["audit"] = "sparse"
     if seed_bare and draw(st.integers(0, 2)) > 0:
         cfg["seed"].append({"slot": "b1", "bare": True, "meta": draw(st.sampled_from(["config", "file"])), "kind": "calendar"})
     ics_names = [draw(gen.member_name(".ics", fancy=False)) for _ in range(2)]
@@ -111,6 +114,8 @@ def program(draw, weights=None, min_steps=8, max_steps=30, prefixes=PREFIXES, se
         return []
 
     for _ in range(n):
+        if sparse and draw(st.integers(0, 7)) == 0:
+            steps.append({"op": "AUDIT"})
         op = draw(opst)
         fe = draw(FE)
         afe = draw(st.sampled_from(["wsgi", "wsgi", "aio"]))
